@@ -939,6 +939,12 @@ func ParseMetricTimeSeriesRequest(rawJSON []byte) (uint32, uint32, []map[string]
 		return start, end, queries, formulas, errorLog, readJSON, respBodyErr
 	}
 
+	if len(formulaInterfaces) == 0 {
+		respBodyErr = errors.New("failed to parse 'formulas' from JSON body: no formula")
+		errorLog = "the 'formulas' array in the JSON body is empty"
+		return start, end, queries, formulas, errorLog, readJSON, respBodyErr
+	}
+
 	formulas = make([]map[string]interface{}, len(formulaInterfaces))
 	for i, fi := range formulaInterfaces {
 		formulaMap, ok := fi.(map[string]interface{})
